@@ -105,6 +105,13 @@ check("C18", "model_checking",
       "Trusted: the reference position model; each history runs far below the rate limiter window.",
       "DESIGN.md §2.4, §3 C18", engine="engine/common (history enumeration)")
 
+
+check("C02", "exploration",
+      "graph search over the parser's call graph built from the current source (every cycle must pass a recognised depth guard; every recursive function must be driven by a nesting family) + bounded exhaustive nesting-depth enumeration with measured stack growth + boundary enumeration of the size and token limits",
+      "Static: strongly connected components of the typed call graph of pkg/sql/parser and pkg/sql/tokenizer with guarded edges removed (guard = depth++ / limit test / return, recognised per edge). Dynamic: 3829 nesting families (wrapper production x holding clause) at every depth 1..130 and 200, 500, 1000 (thorough: 10^4, 10^5 and the largest depth the limits allow), stack growth measured through a probing context; inputs of MaxInputSize and MaxTokens -1/0/+1 in several shapes through 3 entry points.",
+      "Trusted: go/types call graph (direct calls + intra-library dynamic edges of callgraph -algo=cha in thorough); guard recognition is syntactic; a family is recursive iff its measured stack grows with depth.",
+      "DESIGN.md §2.7, §3 C02", engine="engine/cgraph + engine/common")
+
 NOT_BUILT = "check not built yet (work in progress; see DESIGN.md for the planned model-checking design)"
 man = dict(
     version=1,
